@@ -36,6 +36,8 @@ Assign(n, e, ln)   == [k |-> "assign", n |-> n, e |-> e, ln |-> ln]
 If(cs, els, ln)    == [k |-> "if", cs |-> cs, els |-> els, ln |-> ln]      \* cs: sequence of [c |-> cond, body |-> stmts, ln]
 Each(v, a, b, els, ln) == [k |-> "each", var |-> v, arr |-> a, body |-> b, els |-> els, ln |-> ln]
 For(i, c, p, b, els, ln) == [k |-> "for", init |-> i, cond |-> c, post |-> p, body |-> b, els |-> els, ln |-> ln]
+NoInit == [k |-> "noinit"]            \* @for(; cond; post): no name is bound by the header, the loop is a block all the same
+NoPost == [k |-> "nopost"]            \* (a post clause is an expression whose value goes to the init name, or - without init - an assignment)
 Break(ln)          == [k |-> "break", ln |-> ln]
 Continue(ln)       == [k |-> "continue", ln |-> ln]
 BreakIf(c, ln)     == [k |-> "breakif", c |-> c, ln |-> ln]
@@ -160,23 +162,27 @@ MaxPasses == 12
 \* @for(init; cond; post): init runs in the loop's scope; the @else body runs when cond is false at entry
 StepFor(s) ==
   LET sc0 == <<<<>>>> \o env
-      iv == Ev(s.init.e, sc0) IN
+      iv == IF s.init.k = "noinit" THEN Nil ELSE Ev(s.init.e, sc0) IN
   IF Bad(iv) THEN StopBad(iv, s.ln)
-  ELSE LET r == SetVar(sc0, s.init.n, iv) IN
+  ELSE LET r == IF s.init.k = "noinit" THEN [t |-> "env", sc |-> sc0] ELSE SetVar(sc0, s.init.n, iv) IN
        IF IsErr(r) THEN Stop("err", r.why, s.ln)
        ELSE LET c == Ev(s.cond, r.sc) IN
             IF Bad(c) THEN StopBad(c, s.ln)
             ELSE IF ~Truthy(c) /\ HasElse(s)
                  THEN /\ ctrl' = Advance \o <<ScopeF, SeqF(s.els)>> /\ env' = r.sc /\ UNCHANGED out /\ Run
-                 ELSE /\ ctrl' = Advance \o <<ScopeF, [f |-> "for", cond |-> s.cond, post |-> s.post, var |-> s.init.n,
+                 ELSE /\ ctrl' = Advance \o <<ScopeF, [f |-> "for", cond |-> s.cond, post |-> s.post,
+                                                       var |-> IF s.init.k = "noinit" THEN "" ELSE s.init.n,
                                                        body |-> s.body, n |-> 0, ln |-> s.ln, fresh |-> TRUE]>>
                       /\ env' = r.sc /\ UNCHANGED out /\ Run
 \* the for frame is on top: (after a pass: apply post, then) test the condition
 StepForNext ==
   LET fr == Top
-      afterPost == IF fr.fresh THEN [t |-> "env", sc |-> env]
+      afterPost == IF fr.fresh \/ fr.post.k = "nopost" THEN [t |-> "env", sc |-> env]
+                   ELSE IF fr.post.k = "assign"
+                        THEN (IF fr.var # "" THEN Unspec           \* an assignment as post clause next to an init clause: not modelled
+                              ELSE LET pv == Ev(fr.post.e, env) IN IF Bad(pv) THEN pv ELSE SetVar(env, fr.post.n, pv))
                    ELSE LET pv == Ev(fr.post, env) IN
-                        IF Bad(pv) THEN pv ELSE SetVar(env, fr.var, pv)
+                        IF Bad(pv) THEN pv ELSE IF fr.var = "" THEN [t |-> "env", sc |-> env] ELSE SetVar(env, fr.var, pv)
   IN IF afterPost.t # "env" THEN StopBad(afterPost, fr.ln)
      ELSE LET c == Ev(fr.cond, afterPost.sc) IN
           IF Bad(c) THEN StopBad(c, fr.ln)
